@@ -246,11 +246,13 @@ class PWLCalibration(keras.layers.Layer):
           output_max=self._output_init_max,
           monotonicity=self.monotonicity)
     elif kernel_initializer == "equal_slopes":
+      # A cyclic calibrator has no weight for its last (closing) segment.
       self.kernel_initializer = UniformOutputInitializer(
           output_min=self._output_init_min,
           output_max=self._output_init_max,
           monotonicity=self.monotonicity,
-          keypoints=self.input_keypoints)
+          keypoints=(self.input_keypoints[:-1]
+                     if self.is_cyclic else self.input_keypoints))
     else:
       # Keras deserialization logic must have explicit acceess to all custom
       # classes. This is standard way to provide such access.
